@@ -141,7 +141,11 @@ def _real_extractions(args):
         xo = {'pad_width': int(rng.randint(1, 5))}
         if rng.rand() < .2:
             xo['parabolic_extrema'] = True
-        with Recorder(emd) as R:
+        if rng.rand() < .25:           # custom np.pad options for the extrema padding
+            xo['mag_pad_opts'] = [{'mode': 'mean', 'stat_length': 3}, {'mode': 'reflect'}, {'mode': 'median', 'stat_length': 3}][rng.randint(3)]
+        if rng.rand() < .1:
+            xo['loc_pad_opts'] = {'mode': 'reflect', 'reflect_type': 'odd'}
+        with Recorder(emd, check_env=True) as R:
             core.guarded(emd.sift.get_next_imf, x, envelope_opts=eo, extrema_opts=xo, _timeout=20, **o)
         for ev, me in zip(R.traces, R.meta):
             if me['traceable']:
@@ -151,9 +155,91 @@ def _real_extractions(args):
     return traces, info
 
 
+def stop_rule_records(emd, seed, count):
+    """Direct calls of the three stopping rules on data whose exact summary is known (StopRulesDef)."""
+    rng = np.random.RandomState(seed)
+    S = emd.sift
+    recs = []
+    TOLS = [(1, 20, .05), (1, 10, .1), (1, 4, .25), (1, 2, .5), (1, 5, .2)]
+    for it in range(count):
+        tp, tq, tol = TOLS[rng.randint(len(TOLS))]
+        # Rilling: envelopes mean+1 / mean-1 (amplitude exactly 1), |mean| in {0, 1/32, 1/16, 3/4} around sd1=.05, sd2=.5
+        N = int(rng.choice([4, 10, 20, 40, 60, 100]))
+        if it % 3 == 0 and (N * tp) % tq == 0:
+            n1 = N * tp // tq + int(rng.randint(-1, 2))            # at / next to the tolerated fraction
+        else:
+            n1 = int(rng.randint(0, N + 1))
+        n1 = min(max(n1, 0), N)
+        n2 = int(rng.randint(0, n1 + 1)) if rng.rand() < .3 else 0
+        a = np.array([.75] * n2 + [.0625] * (n1 - n2) + [0.03125, 0.0][it % 2:][:1] * (N - n1))
+        a = a * rng.choice([-1, 1], size=N)
+        rng.shuffle(a)
+        out = core.guarded(S.rilling_stop, a + 1, a - 1, sd1=.05, sd2=.5, tol=tol, niters=3)
+        recs.append({'rule': 'rilling', 'N': N, 'n1': n1, 'n2': n2, 'tp': tp, 'tq': tq, 'raised': int(isinstance(out, str)),
+                     'fired': -1 if isinstance(out, str) else int(bool(out[0]))})
+        # SD: integer-valued iterates, dyadic thresholds
+        tp2, tq2, thr = [(1, 8, .125), (1, 4, .25), (1, 2, .5), (1, 16, .0625)][rng.randint(4)]
+        n = int(rng.choice([2, 4, 8]))
+        cur = rng.randint(-4, 5, size=n).astype(float)
+        if not cur.any():
+            cur[0] = 2.0
+        d = rng.randint(-2, 3, size=n).astype(float)
+        if it % 3 == 0:          # aim at the threshold exactly: sum(d^2) * tq == tp * sum(cur^2) when possible
+            den = int(np.sum(cur ** 2))
+            if (den * tp2) % tq2 == 0:
+                want = den * tp2 // tq2
+                d = np.zeros(n)
+                k = 0
+                while want > 0 and k < n:
+                    r = int(np.floor(np.sqrt(want)))
+                    d[k] = r
+                    want -= r * r
+                    k += 1
+                if want > 0:
+                    d = rng.randint(-2, 3, size=n).astype(float)
+        out = core.guarded(S.sd_stop, cur[:, None], (cur - d)[:, None], sd=thr, niters=2)
+        recs.append({'rule': 'sd', 'num': int(np.sum(d ** 2)), 'den': int(np.sum(cur ** 2)), 'tp': tp2, 'tq': tq2, 'raised': int(isinstance(out, str)),
+                     'fired': -1 if isinstance(out, str) else int(bool(out[0]))})
+        ni, mx = int(rng.randint(1, 8)), int(rng.randint(1, 8))
+        out = core.guarded(S.fixed_stop, ni, mx)
+        recs.append({'rule': 'fixed', 'niters': ni, 'maxit': mx, 'raised': int(isinstance(out, str)), 'fired': -1 if isinstance(out, str) else int(bool(out))})
+    return recs
+
+
+STOP_INVS = ['RillingAnyLargeContinues', 'RillingMonotone', 'RillingBoundary', 'SdStrict', 'SdMonotone', 'FixedOnce']
+
+
+def stop_rules_leg(ctx, emd):
+    cfg = os.path.join(ctx.work, 'sr.cfg')
+    consts = {'MaxN': ctx.pick(8, 20), 'Tols': '<- Tols3'}
+    core.write_cfg(cfg, init='Init', next_='Next', invariants=STOP_INVS, constants=consts)
+    res = core.run_tlc(ctx, 'StopRules', cfg, name='StopRules laws')
+    core.require_ok(res, 'Leg A StopRules')
+    for w in ('W_RillingBoundaryReached', 'W_SdEqualReached'):
+        core.write_cfg(cfg, init='Init', next_='Next', invariants=[w], constants={'MaxN': 20, 'Tols': '<- Tols3'})
+        core.expect_violation(ctx, 'StopRules', cfg, w, 'StopRules ' + w, workers=2)
+    recs = stop_rule_records(emd, ctx.seed, ctx.pick(1500, 15000))
+    bad = core.validate_records(ctx, 'StopRulesRec', recs, name='StopRulesRec')
+    for r in recs:
+        if r['rule'] == 'rilling' and r['n1'] * r['tq'] == r['tp'] * r['N'] and r['n2'] == 0:
+            ctx.nontrivial(('stop', 'rilling-boundary', r['N'], r['tq']))
+        elif r['rule'] == 'sd' and r['num'] * r['tq'] == r['tp'] * r['den']:
+            ctx.nontrivial(('stop', 'sd-boundary', r['den'], r['tq']))
+    seen = set()
+    for r, clause in bad:
+        if clause in seen:
+            continue
+        seen.add(clause)
+        ctx.violation('C04 stop rules: %s violated by a direct call: %s' % (clause, r), {'leg': 'stop-rules', 'clause': clause, 'record': r})
+    ctx.leg('stop-rules', invariants=STOP_INVS, records=len(recs), mismatches=len(bad),
+            at_rilling_boundary=sum(1 for r in recs if r['rule'] == 'rilling' and r['n1'] * r['tq'] == r['tp'] * r['N'] and r['n2'] == 0),
+            at_sd_boundary=sum(1 for r in recs if r['rule'] == 'sd' and r['num'] * r['tq'] == r['tp'] * r['den']))
+
+
 def run_c04():
     ctx = Ctx('C04')
     emd = core.import_emd()
+    stop_rules_leg(ctx, emd)
     K = ctx.pick(5, 6)
     consts = {'Methods': '{"sd", "rilling", "fixed"}', 'MaxItersSet': core.tla_value(set(range(1, K + 1))),
               'Steps': '{12, 6, 4}', 'EnergySet': '{TRUE, FALSE}', 'Dev': '{}'}
